@@ -114,6 +114,13 @@ func solveUnit(u *Unit, cfg *SolverCfg, only func(*Obligation) bool) {
 		}
 	}
 	per := dt / float64(len(sc.obs))
+	// obligations whose known-class-excluded variant is discharged need no portfolio run
+	weakOK := map[string]bool{}
+	for i, ob := range sc.obs {
+		if ob.WeakOf != "" && i < len(results) && results[i] == "unsat" {
+			weakOK[ob.WeakOf] = true
+		}
+	}
 	var wg sync.WaitGroup
 	sem := make(chan struct{}, 4)
 	for i, ob := range sc.obs {
@@ -130,6 +137,9 @@ func solveUnit(u *Unit, cfg *SolverCfg, only func(*Obligation) bool) {
 				continue // sat or inconclusive: not vacuous as far as can be told
 			}
 		} else if r == "unsat" && !cfg.All {
+			continue
+		} else if r != "unsat" && weakOK[ob.Name] {
+			ob.Result = "fails-only-in-known-class"
 			continue
 		}
 		wg.Add(1)
